@@ -810,6 +810,16 @@ func c10Child(r *ev.Run, batch int) {
 			}
 		}
 		ops := []ref.Op{{Kind: "mutate", Table: "T", Where: byUUID(c10UUID), Muts: muts}}
+		if i%4 == 3 && (c.IsMap() || c.IsSet()) {
+			// two updates of the column in one transaction: the merged modify row applied to
+			// the first old value must give the last new value (the merge is schema-aware:
+			// bounded and unbounded sets, maps and optionals take different branches)
+			ops = []ref.Op{
+				{Kind: "update", Table: "T", Where: byUUID(c10UUID), Row: ref.Row{c.Name: pick()}},
+				{Kind: "update", Table: "T", Where: byUUID(c10UUID), Row: ref.Row{c.Name: pick()}},
+			}
+			r.Count("two_updates_merged", 1)
+		}
 		r.Eval(1)
 		r.Count("mutate_operations", 1)
 		r.Distinct("m|" + c.Name + cur.String() + fmt.Sprint(opsJSON(ops)))
